@@ -193,16 +193,16 @@ func (o *functionOperator) Next(ctx context.Context) ([]model.StepVector, error)
 		// scalar() depends on number of samples per vector and returns NaN if len(samples) != 1.
 		// So need to handle this separately here, instead of going via call which is per point.
 		if o.funcExpr.Func.Name == "scalar" {
-			if len(vector.Samples) <= 1 {
-				continue
+			// The result is a single label-less sample (ID 0): the value of
+			// the only input sample, or NaN if there is not exactly one.
+			v := math.NaN()
+			if len(vector.Samples) == 1 {
+				v = vector.Samples[0]
 			}
-
-			vectors[batchIndex].Samples = vector.Samples[:1]
-			vectors[batchIndex].SampleIDs = vector.SampleIDs[:1]
-			vector.Samples[0] = math.NaN()
+			vectors[batchIndex].Samples = append(vector.Samples[:0], v)
+			vectors[batchIndex].SampleIDs = append(vector.SampleIDs[:0], 0)
 			continue
 		}
-
 		for i := range vector.Samples {
 			o.pointBuf[0].V = vector.Samples[i]
 			// Call function by separately passing major input and scalars.
@@ -229,7 +229,7 @@ func (o *functionOperator) loadSeries(ctx context.Context) error {
 		}
 
 		if o.funcExpr.Func.Name == "scalar" {
-			o.series = []labels.Labels{}
+			o.series = make([]labels.Labels, 1)
 			return
 		}
 
